@@ -65,8 +65,15 @@ pub fn observe_with<V: Fv>(seed: [u8; 32], tag: &str, maker: impl FnOnce() -> (V
     let skb = V::sk_to_bytes(&sk);
     let pkb = V::pk_to_bytes(&pk);
     // round trips
+    // "equal" includes the signing tree (SecretKey's own == looks at the basis only): leaves and branch polynomials bit for bit
+    let tree_bits = |k: &V::Sk| -> Vec<u64> {
+        V::sk_tree(k).iter().flat_map(|nd| match nd {
+            verif::TreeNode::Branch(l) => l.iter().flat_map(|c| [c.0.to_bits(), c.1.to_bits()]).collect::<Vec<u64>>(),
+            verif::TreeNode::Leaf(a, b) => vec![a.0.to_bits(), a.1.to_bits(), b.0.to_bits(), b.1.to_bits()],
+        }).collect()
+    };
     let (sk_rt, sk_rt_bytes) = match guarded(|| V::sk_from_bytes(&skb)) {
-        Outcome::Ret(Ok(k2)) => (if k2 == sk { "ok-equal" } else { "ok-differs" }, V::sk_to_bytes(&k2)),
+        Outcome::Ret(Ok(k2)) => (if k2 == sk && tree_bits(&k2) == tree_bits(&sk) { "ok-equal" } else { "ok-differs" }, V::sk_to_bytes(&k2)),
         Outcome::Ret(Err(_)) => ("err", vec![]),
         Outcome::Panic(_) => ("panic", vec![]),
     };
